@@ -55,7 +55,7 @@ class C18(Check):
             "together with numpy.random.get_state(); each checkpoint is resumed (deepcopy/dill/pickle in this process after disturbing the generator, pickle also in a fresh "
             "interpreter) with the saved generator state and must reproduce every later generation of the uninterrupted run (fingerprints of X, F, G, optimum); "
             "minimize(save_history=True) must end in the same population as save_history=False; the uninterrupted run is also compared with the Coq model step by step; "
-            "non-trivial = at least 3 interruption points; distinct by hash; one case in four or five is a multi-feature scenario taken in turn and run in a process of its own (the algorithm's default survival object after a run on an unconstrained problem, now on a problem with 20-80% feasible points; constraint-ranking or default survival with a small feasible region reached one member at a time; single-objective DE with a minimal population on a coarse plateau, 8 generations; constraint-ranking survival with two constraints and at most 30% feasible points; the dither range as one shared float array)")
+            "non-trivial = at least 3 interruption points; distinct by hash; one case in four or five is a multi-feature scenario taken in turn and run in a process of its own (the algorithm's default survival object after a run on an unconstrained problem, now on a problem with 20-80% feasible points; constraint-ranking or default survival with a small feasible region reached one member at a time; single-objective DE with a minimal population on a coarse plateau, 8 generations; constraint-ranking survival with two constraints and at most 30% feasible points; the dither range as one shared float array; an objective that is +inf on part of the box (cd / ce); advance_after_initial_infill=False); 15% of the two-objective cd / ce cases have such an infinite region and 12% of the DE cases that flag")
     ASSUMPTIONS = ["what pickle / dill / deepcopy do to bound methods, C-extension state and numpy's generator is runtime behaviour the model cannot exhibit: observation only (partial)",
                    "the model-level statement is: a run of k + m generations is the run of m generations from the state after k (state is a first-class value)"]
 
